@@ -29,6 +29,10 @@ type ilCase struct {
 	Hash    uint       `json:"hash_mb"`
 	Noise   uint       `json:"noise"`
 	Gated   bool       `json:"gated"`
+	// HoldFirst: the gate also holds the FIRST iteration of every analysis. Commands that halt
+	// the engine then reach Halt while depth 1 is pending (Halt has to wait for it by design);
+	// the harness releases depth 1 right after sending such a command.
+	HoldFirst bool `json:"hold_first,omitempty"`
 	Actions []ilAction `json:"actions"`
 }
 
@@ -113,6 +117,9 @@ var checkC16 = def("C16/interleave", func(c ilCase) error {
 		hold := 0
 		if c.Gated {
 			hold = 2
+			if c.HoldFirst {
+				hold = 1
+			}
 		}
 		gs = newGatedSearch(s, hold)
 		return gs
@@ -179,6 +186,23 @@ var checkC16 = def("C16/interleave", func(c ilCase) error {
 			gos[k].mayEnd = true
 		}
 		close(ev.release)
+	}
+	// releaseFirstIterations lets every analysis that is held before its depth-1 search run it:
+	// called right after a command that halts the engine was sent (the command loop is then
+	// inside Halt, waiting for exactly that).
+	releaseFirstIterations := func() {
+		if !c.HoldFirst {
+			return
+		}
+		time.Sleep(2 * time.Millisecond)
+		collect(0)
+		for i := 0; i < len(heldEvents); {
+			if heldEvents[i].depth == 1 {
+				release(i)
+				continue
+			}
+			i++
+		}
 	}
 	releaseAll := func() {
 		for len(heldEvents) > 0 {
@@ -258,6 +282,7 @@ var checkC16 = def("C16/interleave", func(c ilCase) error {
 			if !s.send(a.Pos.text()) {
 				return fmt.Errorf("step %d: driver stopped reading input", i)
 			}
+			releaseFirstIterations()
 			g = ng
 			if len(gos) > 0 {
 				gos[len(gos)-1].superseded = true // position halts the active search
@@ -281,7 +306,12 @@ var checkC16 = def("C16/interleave", func(c ilCase) error {
 			if !s.send(a.Line) {
 				return fmt.Errorf("step %d: driver stopped reading input before %q", i, a.Line)
 			}
+			switch verb {
+			case "go", "stop", "ucinewgame", "quit":
+				releaseFirstIterations()
+			}
 			if shutdownLine(a.Line, g) {
+				releaseFirstIterations()
 				labels = append(labels, "shutdown-line")
 				if len(heldEvents) > 0 {
 					labels = append(labels, "shutdown-with-search-in-flight")
@@ -316,9 +346,15 @@ var checkC16 = def("C16/interleave", func(c ilCase) error {
 				for w := 0; w < 400 && gs.launchCount() == launchesBefore && len(bestmoves(s.snapshotLines())) == bm; w++ {
 					time.Sleep(5 * time.Millisecond)
 				}
-				// give the new search the chance to reach its gate (depth 1 is never held)
+				// give the new search the chance to reach its gate
 				if c.Gated && gs.launchCount() > launchesBefore {
 					collect(150 * time.Millisecond)
+				}
+				// a timer of this go will call Halt from the command loop, which by design waits for
+				// depth 1: the harness must not keep depth 1 pending past that (it would block the
+				// loop itself, not the driver's fault)
+				if c.HoldFirst && rec.mayEnd {
+					releaseFirstIterations()
 				}
 				labels = append(labels, "go")
 			case "stop":
@@ -360,6 +396,7 @@ var checkC16 = def("C16/interleave", func(c ilCase) error {
 			collect(0)
 		case "eof":
 			close(s.in)
+			releaseFirstIterations()
 			labels = append(labels, "eof")
 			if len(heldEvents) > 0 {
 				labels = append(labels, "shutdown-with-search-in-flight")
@@ -384,6 +421,7 @@ var checkC16 = def("C16/interleave", func(c ilCase) error {
 			labels = append(labels, "shutdown-with-search-in-flight")
 		}
 		s.send("quit")
+		releaseFirstIterations()
 		if err := shutdown(len(c.Actions), "quit"); err != nil {
 			return err
 		}
@@ -410,6 +448,9 @@ var checkC16 = def("C16/interleave", func(c ilCase) error {
 		nt = true
 	}
 	labels = append(labels, "engine:"+c.Engine)
+	if c.HoldFirst {
+		labels = append(labels, "first-iteration-held")
+	}
 	if c.Gated {
 		labels = append(labels, "gated")
 	} else {
@@ -433,6 +474,7 @@ func genIlCase(t *rapid.T) ilCase {
 	if rapid.Bool().Draw(t, "morlock") {
 		c.Engine = "morlock"
 	}
+	c.HoldFirst = c.Gated && rapid.IntRange(0, 2).Draw(t, "holdfirst") == 0
 	n := rapid.IntRange(2, 25).Draw(t, "nactions")
 	for i := 0; i < n; i++ {
 		switch rapid.IntRange(0, 19).Draw(t, "akind") {
